@@ -1213,7 +1213,8 @@ def compare(case, res, replies):
         return f"selection predicate: model {m['sel']} vs documented rule {ref_sel}"
     pipe = case["el"]["k"] == "pipe"
     alias = bool(case.get("alias"))
-    msg = (_cmp_run("interleaved flow", res["full"], m["run"], is_pdf, pipe, alias)
+    # (a context mutated before an exception is not in the model: contents of passed values only for normal ends)
+    msg = (_cmp_run("interleaved flow", res["full"], m["run"], is_pdf, pipe, alias and res["full"]["err"] is None)
            or (None if alias else _cmp_run("A alone", res["a"], m["a"], is_pdf, pipe)))
     if msg:
         return msg
@@ -1993,7 +1994,7 @@ def _prepare(el, A, B, ids):
     return A, B
 
 
-ALIAS_ELEMENTS = ("tocsv", "write", "render", "png", "h2g", "runif", "mapgroup")
+ALIAS_ELEMENTS = ("tocsv", "write", "render", "png", "h2g", "runif")
 
 
 def _alias_variants(case, rng):
